@@ -478,7 +478,12 @@ func (Engine) Run(t *tape.Tape, o eng.Opts) *eng.Result {
 						})
 					})
 				case opFlush:
-					w.Flush()
+					if (i+len(ops))%2 == 1 {
+						// the Go 1.20+ way: a ResponseController, which prefers FlushError() and unwraps
+						_ = http.NewResponseController(w).Flush()
+					} else {
+						w.Flush()
+					}
 				case opBefore:
 					id, pan := x.HookID, x.HookPanic
 					w.Before(func(rw flamego.ResponseWriter) {
